@@ -19,7 +19,7 @@ PY = [
     "*a,·b·=·c", "r·=·2**-1", "m·=·a·@·b", "e·=·...", "assert␣x,·'m'", "del␣x", "import␣os,·sys", "from␣os␣import␣(path,\n    sep)", "x·=·1;·y·=·2", "x·=·1;y=2", "pass",
     "s·=·'a  b'", "s·=·\"a\\tb  \"", "s·=·r'\\  '", "s·=·b'a  b'", "s·=·f'{x}  {y!r:>4}'", "s·=·f\"{x·+·1}\"", "s·=·f'{a=}'", "s·=·'a'␣'b'", "x·=·[\n    1,\n      2,\n]",
     "x·=·f(\n        a,\n  b)", "x·=·(a␣or\n     b)", "x·=·a·+·\\\n    b", "x·=·$HOME", "x·=·${'HOME'}", "x·=·$(ls␣-l)", "x·=·!(ls␣-l)", "p·=·p'/tmp'", "x·=·g`*.py`",
-    "print($(echo␣a),·end·=·'')", "r·=·!(ls␣@$(which␣ls)␣--color=auto)", "x·=·$(env␣@$(echo␣A)␣PATH=/bin␣ls)", "y·=·$[echo␣@$(echo␣a)␣k=v]", "z·=·f($(echo␣@(a)␣b=c),·k·=·1)", "x·=·a␣is␣not␣b", "x·=·a␣in␣b", "x·=·a<b", "x·=·a·<=·b·>=·c·!=·d", "x·=·a·//·b", "x·=·a·<<·2", "x·=·~a", "x·=·a·&·b·|·c·^·d",
+    "print($(echo␣a),·end·=·'')", "x·=·$(echo␣a,b␣c:d)", "x·=·$(echo␣a==b␣k=v)", "y·=·!(grep␣-e␣a,b␣f)", "z·=·$[echo␣x:y␣a!=b]", "s·=·f'{x:{w}}'", "s·=·f'{x = }'", "s·=·f'{x!r:>{w}}␣{y}'", "r·=·!(ls␣@$(which␣ls)␣--color=auto)", "x·=·$(env␣@$(echo␣A)␣PATH=/bin␣ls)", "y·=·$[echo␣@$(echo␣a)␣k=v]", "z·=·f($(echo␣@(a)␣b=c),·k·=·1)", "x·=·a␣is␣not␣b", "x·=·a␣in␣b", "x·=·a<b", "x·=·a·<=·b·>=·c·!=·d", "x·=·a·//·b", "x·=·a·<<·2", "x·=·~a", "x·=·a·&·b·|·c·^·d",
     "x·=·[i␣for␣i␣in␣y␣if␣i]", "x·=·{k:·v␣for␣k,·v␣in␣z}", "x·=·f(a)(b)[c].d", "x·=·a␣if␣b␣else␣(c,)", "print(*a,·sep·=·'')", "x·=·1_000·+·0x1f·+·1e-3·+·2j",
     "x·=·a␣or␣b␣and␣not␣c", "global␣gg", "x·=·[\n]", "x·=·f(a,·#·why\n      b)", "x·=·{\n    'k':·1,·#·one\n}", "s·=·'#·not␣a␣comment'", "x·=·a[b][c:d,·e]",
     "s·=·'\\''", "s·=·\"'\"", "s·=·'''q'''", "s·=·'''a\nb'''", "s·=·\"\"\"a\n  b\n\"\"\"", "s·=·f'''{x}\n{y}'''", "t·=·(1,)", "t·=·()", "x·=·-1·**·-2", "x·=·(a)",
@@ -40,9 +40,9 @@ SUB = [
     "echo␣@(x)@(y)", "echo␣a␣e>␣f", "echo␣a␣>>␣f", "cat␣<␣f", "echo␣a␣|␣cat␣|␣cat", "ls␣-l␣-a␣-h", "echo␣--a=b␣--c=d", "echo␣-x=1", "echo␣a==b", "echo␣a!=b", "echo␣a+=b", "echo␣a->b",
     "echo␣a:=b", "echo␣'a'␣'b'", "echo␣x.y␣z", "echo␣[a]␣b", "echo␣a/b/c", "echo␣@(['a',·'b'])", "echo␣@(x␣if␣y␣else␣z)", "xonsh␣-c␣'echo  1'", "echo␣$(ls␣\\\n    -l)",
     "echo␣a␣||␣\\\n  echo␣b", "sed␣--in-place␣s/a/b/␣f", "rsync␣--exclude-from=skip.lst␣a␣b", "make␣--with-ssl␣--without-x", "git␣checkout␣for-review", "echo␣not-x␣is-y␣if=a␣or-b",
-    "dd␣if=/dev/zero␣of=out␣bs=1", "tar␣--exclude=*.pyc␣-cf␣a.tar␣.", "echo␣class-a␣def-b␣import-c␣return=1", "x·=·$(echo␣a␣b).strip()", "echo␣@(f'{a}  b')", "echo␣a␣2>␣/dev/null", "echo␣-", "echo␣=", "echo␣a␣=␣b",
+    "dd␣if=/dev/zero␣of=out␣bs=1", "echo␣a\\\nb", "echo␣--long-\\\noption␣x", "echo␣$(echo␣a,b)␣x:y", "ls␣/tmp␣-5", "du␣-h␣/␣x", "echo␣@(x)=y", "echo␣$(ls)/sub", "tar␣--exclude=*.pyc␣-cf␣a.tar␣.", "echo␣class-a␣def-b␣import-c␣return=1", "x·=·$(echo␣a␣b).strip()", "echo␣@(f'{a}  b')", "echo␣a␣2>␣/dev/null", "echo␣-", "echo␣=", "echo␣a␣=␣b",
 ]
-MACRO = ["echo!␣a   b  c", "echo!·x", "f!(a   b,  c)", "timeit!␣ls   -l", "bash␣-c␣!␣echo   a  b", "f!(x  +  y)", "g!(  'a  b'  )", "echo!␣--k = v  # not a comment?", "x·=·f!(a  ,b)", "h!([1,  2],   {3:  4})"]
+MACRO = ["with!␣ctx():\n    raw   body  text\n    more   raw , x", "echo!␣a   b  c", "echo!·x", "f!(a   b,  c)", "timeit!␣ls   -l", "bash␣-c␣!␣echo   a  b", "f!(x  +  y)", "g!(  'a  b'  )", "echo!␣--k = v  # not a comment?", "x·=·f!(a  ,b)", "h!([1,  2],   {3:  4})"]
 COMMENTS = ["#·c", "#c", "#def foo():", "#  indented   text", "#!shebang", "# trailing   ", "#"]
 INLINE = ["··#·inline", "·#inline", "␣#  spaced   out", "··#"]
 
@@ -95,8 +95,10 @@ def features(src, kinds):
             glued = True
         if any(b in ln for b in ("![", "$[", "$(", "!(", "@(", "${", "@$(")):
             seen_bracket = True
+    with_macro = any(_re.match(r"^\s*with!", ln) for ln in src.split("\n"))
+    glued_cont = bool(_re.search(r"\S\\\n\S", src))
     kw_led = any(_re.match(r"^\s*[\w./~-]+\s+(not|is|in|if|or|and|else|for|while|with|as|lambda|del|from|import|return|yield)[-=]", ln) for ln in src.split("\n"))
-    f = {"triple_trailing": False, "keyword_led_argument": kw_led, "glued_hash_after_bracket": glued, "assign_like_command": assign_like, "dangling_continuation": dangling, "macro": "macro" in kinds, "sub": "sub" in kinds, "cont": "\\\n" in src, "tabs": "\t" in src, "crlf": "\r" in src}
+    f = {"triple_trailing": False, "with_macro_block": with_macro, "glued_continuation": glued_cont, "keyword_led_argument": kw_led, "glued_hash_after_bracket": glued, "assign_like_command": assign_like, "dangling_continuation": dangling, "macro": "macro" in kinds, "sub": "sub" in kinds, "cont": "\\\n" in src, "tabs": "\t" in src, "crlf": "\r" in src}
     # a triple-quoted literal with blanks before one of its inner newlines
     for q in ("'''", '"""'):
         parts = src.split(q)
@@ -246,7 +248,7 @@ def describe(trace, matched):
 def slim(t):
     o = t["steps"][0]["obs"]
     f = t["feat"]
-    return {"feat": {k: bool(f.get(k)) for k in ("triple_trailing", "assign_like_command", "dangling_continuation", "glued_hash_after_bracket", "keyword_led_argument")}, "steps": [{"cmd": "format", "obs": {"accepted": o["accepted"], "same": bool(o["same_tree"] and o["comments_same"]), "idem": bool(o["idempotent"])}}]}
+    return {"feat": {k: bool(f.get(k)) for k in ("triple_trailing", "assign_like_command", "dangling_continuation", "glued_hash_after_bracket", "keyword_led_argument", "with_macro_block", "glued_continuation")}, "steps": [{"cmd": "format", "obs": {"accepted": o["accepted"], "same": bool(o["same_tree"] and o["comments_same"]), "idem": bool(o["idempotent"])}}]}
 
 
 def run(tier, seed, replay=None):
